@@ -16,7 +16,7 @@ theorem getDependentProducts_total (db : Db) (hns : NoUnsetup db) (top : Prod) (
       (cc = true ∧ getDependentProducts db db.fuel top topological cc = .cycle) := by
   obtain ⟨out1, st1, h1⟩ := listing_total db hns [] top
   unfold getDependentProducts
-  simp only [h1]
+  simp only [tableMissing_false hns top, Bool.false_eq_true, if_false, h1]
   split
   · exact Or.inl ⟨_, rfl⟩
   · obtain ⟨out2, st2, h2⟩ := listing_total db hns (out1.map fun e => (e.prod.name, e.prod.ver)) top
